@@ -48,6 +48,14 @@ def cases(tier, rng):
                         ops.append("recv")
                 out.append("p%d.%d%s sock REP / %s" % (k, npeers, "y" if avail else "n", " / ".join(ops)))
                 k += 1
+    # two connections announcing the same identity: the newer replaces the older; requests and replies stay paired
+    for idl in (1, 5, 255):
+        ident = W.tok(b"I" * idl)
+        for who in ("a", "b"):
+            ops = ["attach a REQ id=" + ident, "attach b REQ id=" + ident,
+                   "feed %s %s" % (who, W.tok(W.msg([b"", b"q-" + who.encode()]))), "recv", "send 7265706c79", "wire a", "wire b"]
+            out.append("d%d sock REP / %s" % (k, " / ".join(ops)))
+            k += 1
     # concurrent lock-step clients: requests arrive segmented, at random times; server loop recv; send f(req)
     for it in range(150 if tier == "quick" else 2500):
         nc = rng.randint(1, 4)
@@ -74,6 +82,10 @@ def cases(tier, rng):
         out.append("c%d sock REP / %s" % (k, " / ".join(ops)))
         k += 1
     return out
+
+
+def compare_filter(line):
+    return not line.startswith("d")      # the model assumes distinct identities
 
 
 def norm_impl(o, line):
@@ -131,6 +143,18 @@ def judge(line, obs, orc):
                         return "REQ recv with a closed peer: %s" % tk
                     owing = False
                     gone = True
+    elif kind == "d":
+        # the request came over connection `who` (the only one that sent anything): if it is returned, the reply must be on that wire
+        who = [op[1] for op, tk in po if op[0] == "feed"][0]
+        rcv = [tk for op, tk in po if op[0] == "recv"][0]
+        wires = {op[1]: tk.split("=", 1)[1] for op, tk in po if op[0] == "wire"}
+        snd = [tk for op, tk in po if op[0] == "send"][0]
+        if rcv.startswith("r=ok:"):
+            other = "b" if who == "a" else "a"
+            if snd != "s=ok" or wires[who] != S.enc([b"", b"reply"]) or wires[other] != "-":
+                return "request read from connection %s but the reply went elsewhere: %s %s" % (who, snd, wires)
+        elif any(v != "-" for v in wires.values()):
+            return "a reply was written although no request was returned: %s" % wires
     elif kind in ("p", "c"):
         cur = None      # connection whose request is being served
         names = sorted(set(op[1] for op, _ in po if op[0] == "attach"))
